@@ -21,7 +21,7 @@ def atomLineWidths : List (String × Nat) := [(">", 10), (">", 10), (">", 10), (
 def bondLineWidths : List (String × Nat) := [(">", 3), (">", 3), (">", 3), (">", 3), (">", 3), (">", 3), (">", 3)]
 def countsLineWidths : List (String × Nat) := [(">", 3), (">", 3), ("lit", 33)]
 /-- `_BIOTITE_TO_RDKIT_BOND_TYPE`: (BondType value, Chem.BondType member). -/
-def toRdkit : List (Nat × String) := [(0, "UNSPECIFIED"), (1, "SINGLE"), (2, "DOUBLE"), (3, "TRIPLE"), (4, "QUADRUPLE"), (5, "AROMATIC"), (6, "AROMATIC"), (7, "AROMATIC"), (9, "AROMATIC"), (8, "SINGLE")]
+def toRdkit : List (Nat × String) := [(0, "UNSPECIFIED"), (1, "SINGLE"), (2, "DOUBLE"), (3, "TRIPLE"), (4, "QUADRUPLE"), (5, "AROMATIC"), (6, "AROMATIC"), (7, "AROMATIC"), (9, "AROMATIC"), (8, "DATIVE")]
 /-- `_RDKIT_TO_BIOTITE_BOND_TYPE`. -/
 def fromRdkit : List (String × Nat) := [("UNSPECIFIED", 0), ("SINGLE", 1), ("DOUBLE", 2), ("TRIPLE", 3), ("QUADRUPLE", 4), ("DATIVE", 8)]
 /-- `_KEKULIZED_TO_AROMATIC_BOND_TYPE`. -/
